@@ -230,6 +230,31 @@ def run(chk):
             return None
         chk.bounded('end-to-end: filter sets x stores x routes vs reference', list(cases()), check, classify=lambda c: c,
                     bound=f'{len(pool)} filters, sets of size <= {3 if chk.tier == "thorough" else 2} (size-2: every 3rd, size-3: every 17th combination by seed), 8 objects, memory + filesystem, 4 routes')
+        # ---- history: the stores keep answering from their current content (a new version of an id already held, a new id, content written by someone else)
+        import stix2 as _s
+        newer = _s.v21.Identity(id=ID('identity', 1), name='alpha3', identity_class='individual', created='2020-01-01T00:00:00Z', modified='2020-02-01T00:00:00Z', labels=['a'])
+        fresh = _s.v21.Tool(id=ID('tool', 10), name='fresh', created='2020-01-01T00:00:00Z', modified='2020-01-01T00:00:00Z')
+        foreign = {'type': 'malware', 'spec_version': '2.1', 'id': ID('malware', 11), 'created': '2020-01-08T00:00:00Z', 'modified': '2020-01-08T00:00:00Z', 'name': 'foreign', 'is_family': False}
+        pop2 = list(pop)
+        for step, add in (('a new version of an id already held', newer), ('a new id', fresh)):
+            mem.add(add); fs.add(add); pop2.append(add)
+            def hist_check(i, pop2=list(pop2), step=step):
+                fset = [pool[i]]; want = expect(fset, pop2)
+                for sname, store in (('memory', mem), ('filesystem', fs)):
+                    r = got(lambda: store.query(list(fset)))
+                    if want != 'error' and r != 'error' and r != want: return (f'history#{sname} answers from its current content', f'after adding {step}: {sname}.query({fset}) returned {r}, reference {want}', {'filters': repr(fset)})
+            chk.bounded(f'history: single filters after adding {step}', list(range(len(pool))), hist_check, classify=lambda i: i, bound=f'{len(pool)} filters x memory + filesystem')
+        # a file written by another producer: plain JSON without the properties the library would default, timestamps spelled without fraction
+        fdir = os.path.join(tmp, 'fs', 'malware', foreign['id']); os.makedirs(fdir, exist_ok=True)
+        json.dump(foreign, open(os.path.join(fdir, '20200108000000000000.json'), 'w'))
+        fobj = _s.parse(foreign); pop3 = pop2 + [fobj]
+        def foreign_check(i):
+            fset = [pool[i]]; want = expect(fset, pop3)
+            r = got(lambda: fs.query(list(fset)))
+            if want != 'error' and r != 'error' and r != want: return ('history#filesystem content written by another producer', f'filesystem.query({fset}) returned {r}, reference {want}', {'filters': repr(fset)})
+        extra = [_s.Filter('revoked', '=', False), _s.Filter('created', '=', '2020-01-08T00:00:00.000Z'), _s.Filter('modified', '>=', '2020-01-08T00:00:00.000000Z'), _s.Filter('name', '=', 'foreign')]
+        pool.extend(extra)
+        chk.bounded('history: a file written by another producer (no defaulted properties, other timestamp spelling)', list(range(len(pool))), foreign_check, classify=lambda i: i, bound=f'{len(pool)} filters on the filesystem store')
     finally:
         shutil.rmtree(tmp, ignore_errors=True)
     # known finding (same root cause as in C11): custom content of an unregistered type is kept as a dictionary whose timestamps are text, and filters compare the text
